@@ -121,10 +121,24 @@ func QueryMessageDescByName(messageName string) *MessageDesc {
 	return outsideMessageDesc
 }
 
-func SerializeRemotingMessage(codec Codec, writer *Writer, desc *MessageDesc, message any) error {
+// ErrNilMessage 表示待编码的消息是空指针（带类型的 nil），无法编码。
+var ErrNilMessage = fmt.Errorf("message is a nil pointer")
+
+func SerializeRemotingMessage(codec Codec, writer *Writer, desc *MessageDesc, message any) (err error) {
+	// 带类型的空指针不是消息：返回错误，而不是交给各消息的写入函数去解引用
+	if rv := reflect.ValueOf(message); rv.Kind() == reflect.Ptr && rv.IsNil() {
+		return fmt.Errorf("%w: %T", ErrNilMessage, message)
+	}
 	dw := NewWriterFromPool()
 	defer ReleaseWriterToPool(dw)
-	if err := desc.writer(message, dw, codec); err != nil {
+	// 消息的写入函数（含用户注册的自定义写入函数）遇到空字段等无法编码的值时可能 panic：
+	// 在编码边界转为错误返回，发送方不应因一条无法编码的消息而崩溃
+	defer func() {
+		if r := recover(); r != nil {
+			err = fmt.Errorf("message %T cannot be encoded: %v", message, r)
+		}
+	}()
+	if err = desc.writer(message, dw, codec); err != nil {
 		return err
 	}
 	writer.WriteBytesWithLength(dw.Bytes(), LengthSize4)
